@@ -390,6 +390,29 @@ def rule_scheme(ctx):
                   "peer-chosen signature scheme checked against a local list before the signature gate",
                   "the peer's CertificateVerify scheme is used without an effective membership check "
                   "against the schemes this endpoint offered/accepts", cut=cut)
+        # KEYTYPE: one of those lists is specific to the certificate the peer presented
+        # (_sigHashesToList(.., certList=<its chain>)), so the scheme fits the key that will verify it
+        peer_chain = {"certificate": "serverCertChain"}.get(chain, chain)
+        keyt = []
+        for t in tests:
+            disj = t.expr.values if isinstance(t.expr, ast.BoolOp) and isinstance(t.expr.op, ast.Or) else [t.expr]
+            for e in disj:
+                if not (isinstance(e, ast.Compare) and isinstance(e.ops[0], ast.NotIn) and attr_chain(e.left) in aliases
+                        and isinstance(e.comparators[0], ast.Name)):
+                    continue
+                ds = reaching_defs(g, t, e.comparators[0].id)
+                if ds and all(isinstance(d.ast, ast.Assign) and isinstance(d.ast.value, ast.Call)
+                              and call_name(d.ast.value) == "_sigHashesToList"
+                              and peer_chain in [norm(a) for a in d.ast.value.args] +
+                              [norm(k.value) for k in d.ast.value.keywords if k.arg == "certList"] for d in ds):
+                    keyt.append(t)
+        effk = [t for t in keyt if "T" in dead_edge_labels(g, t, gates)] + [t for t in eff if t not in tests]
+        must_pass(ctx, "C05.KEYTYPE", fi, g, cvs, gates, effk,
+                  "peer-chosen signature scheme checked against the schemes usable with the presented certificate",
+                  "the peer's CertificateVerify scheme is not checked against the key type of the certificate it "
+                  "presented (_sigHashesToList(.., certList=%s)): a scheme of another key family reaches the "
+                  "verification code (AttributeError on the key object instead of an alert, or a verification "
+                  "under the wrong algorithm)" % peer_chain, cut=cut)
     f = ctx.index.func("keyexchange:KeyExchange._tls12_verify_SKE")
     g = ctx.an.cfg(f)
     tests = [t for t in g.nodes if t.kind == "test" and "not in validSigAlgs" in norm(t.expr)]
